@@ -3,6 +3,169 @@
 From ASV Require Export Loc.
 
 (* ====================================================================================
+   The text codec: str(location) (Biopython's SimpleLocation/CompoundLocation.__str__ for the three
+   position kinds Exact / Before "<" / After ">", the four strand spellings "(+)" "(-)" "(?)" ""
+   and "operator{part, part}") and secmet.locations.location_from_string (parse_position,
+   parse_single_location, the "{" test, data[:-1].split("{", 1), split(", ")); strings are lists of
+   character codes.  This is the same transcription as in C10/Model.v (which imports this file, so it
+   cannot be imported from here); functions 14 / 15 of the entry point.
+   ==================================================================================== *)
+Module Text.
+Definition E_Unsupported := 98.
+
+Definition str := list Z.
+Definition str_eqb (a b : str) : bool := list_eqb Z.eqb a b.
+Definition cmem (c : Z) (s : str) : bool := existsb (Z.eqb c) s.
+
+(* ---------- str(int) / int(str) ---------- *)
+Fixpoint dig (fuel : nat) (n : Z) : str :=
+  match fuel with
+  | O => []
+  | S f => if n <? 10 then [48 + n] else dig f (n / 10) ++ [48 + n mod 10]
+  end.
+Definition digits (n : Z) : str := dig (S (Z.to_nat (Z.log2 n))) n.        (* n >= 0 *)
+Definition str_of_int (n : Z) : str := if n <? 0 then 45 :: digits (- n) else digits n.
+
+Definition is_digit (c : Z) : bool := (48 <=? c) && (c <=? 57).
+Definition int_of_digits (d : str) : Z := fold_left (fun acc c => acc * 10 + (c - 48)) d 0.
+Definition parse_nat (s : str) : res Z :=
+  match s with
+  | [] => Err E_Value
+  | _ => if forallb is_digit s then Ok (int_of_digits s) else Err E_Value
+  end.
+Definition parse_int (s : str) : res Z :=
+  match s with
+  | c :: r => if c =? 45 then (do n <- parse_nat r; Ok (- n))
+              else if c =? 43 then parse_nat r
+              else parse_nat s
+  | [] => Err E_Value
+  end.
+
+(* ---------- textual locations ---------- *)
+(* position kind: 0 ExactPosition, 1 BeforePosition "<", 2 AfterPosition ">" *)
+Record tpos := mkTpos { tk : Z; tv : Z }.
+(* strand: 1, -1, 0 ("?"), 2 (None) *)
+Record tpart := mkTpart { tps : tpos; tpe : tpos; tst : Z }.
+Inductive tloc := TSingle (p : tpart) | TCompound (op : str) (parts : list tpart).
+
+Definition pos_str (p : tpos) : str :=
+  (if tk p =? 1 then [60] else if tk p =? 2 then [62] else []) ++ str_of_int (tv p).
+Definition strand_str (st : Z) : str :=
+  if st =? 2 then [] else if st =? 1 then [40; 43; 41] else if st =? -1 then [40; 45; 41] else [40; 63; 41].
+Definition part_str (p : tpart) : str :=
+  [91] ++ pos_str (tps p) ++ [58] ++ pos_str (tpe p) ++ [93] ++ strand_str (tst p).
+Fixpoint join (sep : str) (l : list str) : str :=
+  match l with
+  | [] => []
+  | x :: r => match r with [] => x | _ => x ++ sep ++ join sep r end
+  end.
+Definition loc_str (l : tloc) : str :=
+  match l with
+  | TSingle p => part_str p
+  | TCompound op ps => op ++ [123] ++ join [44; 32] (map part_str ps) ++ [125]
+  end.
+
+(* s.split(c, 1): (text before the first c, Some (text after it)) or (s, None) *)
+Fixpoint split1 (c : Z) (s : str) : str * option str :=
+  match s with
+  | [] => ([], None)
+  | x :: r => if x =? c then ([], Some r) else let '(a, b) := split1 c r in (x :: a, b)
+  end.
+Definition cons_head (x : Z) (l : list str) : list str :=
+  match l with h :: t => (x :: h) :: t | [] => [[x]] end.
+(* s.split(", ") *)
+Fixpoint split_cs (s : str) : list str :=
+  match s with
+  | [] => [[]]
+  | x :: r =>
+    match r with
+    | y :: r' => if (x =? 44) && (y =? 32) then [] :: split_cs r' else cons_head x (split_cs r)
+    | [] => cons_head x (split_cs r)
+    end
+  end.
+
+(* "UnknownPosition()" *)
+Definition unknown_position_text : str :=
+  [85; 110; 107; 110; 111; 119; 110; 80; 111; 115; 105; 116; 105; 111; 110; 40; 41].
+
+Definition parse_position (s : str) : res tpos :=
+  match s with
+  | [] => Err E_Index
+  | c :: r =>
+    if c =? 60 then (do n <- parse_int r; Ok (mkTpos 1 n))
+    else if c =? 62 then (do n <- parse_int r; Ok (mkTpos 2 n))
+    else if str_eqb s unknown_position_text then Err E_Unsupported
+    else (do n <- parse_int s; Ok (mkTpos 0 n))
+  end.
+
+(* string[-2] *)
+Definition char_m2 (s : str) : res Z :=
+  match rev s with _ :: c :: _ => Ok c | _ => Err E_Index end.
+
+Definition parse_single (s : str) : res tpart :=
+  do st <- parse_position (fst (split1 58 (tl s)));
+  do en <- match snd (split1 58 s) with
+           | None => Err E_Index
+           | Some r => parse_position (fst (split1 93 r))
+           end;
+  do c <- char_m2 s;
+  do strand <- (if c =? 45 then Ok (-1) else if c =? 43 then Ok 1 else if c =? 63 then Ok 0
+                else if negb (cmem 40 s) then Ok 2 else Err E_Value);
+  (* SimpleLocation.__init__: start > end raises ValueError *)
+  if tv en <? tv st then Err E_Value else Ok (mkTpart st en strand).
+
+Definition loc_from_string (data : str) : res tloc :=
+  if negb (cmem 123 data) then (do p <- parse_single data; Ok (TSingle p)) else
+  match split1 123 (removelast data) with
+  | (op, Some combined) =>
+    do ps <- mapM parse_single (split_cs combined);
+    match ps with
+    | _ :: _ :: _ => Ok (TCompound op ps)
+    | _ => Err E_Value                       (* CompoundLocation needs two parts *)
+    end
+  | (_, None) => Err E_Value                 (* unpacking a one-element split *)
+  end.
+
+(* the locations of Common/Loc.v (exact positions) as text locations and back *)
+Definition join_text : str := [106; 111; 105; 110].
+Definition tpart_of (p : part) : tpart := mkTpart (mkTpos 0 (ps p)) (mkTpos 0 (pe p)) (pst p).
+Definition part_of (t : tpart) : part := mkPart (tv (tps t)) (tv (tpe t)) (tst t).
+Definition tloc_of_loc (l : loc) : tloc :=
+  match l with
+  | [p] => TSingle (tpart_of p)
+  | _ => TCompound join_text (map tpart_of l)
+  end.
+Definition loc_of_tloc (t : tloc) : loc :=
+  match t with TSingle p => [part_of p] | TCompound _ ps => map part_of ps end.
+
+(* flat encoding *)
+Definition dStr : dec str := dList dZ.
+Definition eStr (s : str) : list Z := eList (fun c => [c]) s.
+
+Definition dTpos : dec tpos := fun l => match l with a :: b :: r => Some (mkTpos a b, r) | _ => None end.
+Definition dTpart : dec tpart := fun l =>
+  match dPair dTpos dTpos l with
+  | Some ((a, b), st :: r) => Some (mkTpart a b st, r)
+  | _ => None
+  end.
+(* tloc ::= 0 part | 1 operator parts *)
+Definition dTloc : dec tloc := fun l =>
+  match l with
+  | 0 :: r => match dTpart r with Some (p, r') => Some (TSingle p, r') | None => None end
+  | 1 :: r => match dPair dStr (dList dTpart) r with
+              | Some ((op, ps), r') => Some (TCompound op ps, r') | None => None end
+  | _ => None
+  end.
+Definition eTpos (p : tpos) : list Z := [tk p; tv p].
+Definition eTpart (p : tpart) : list Z := eTpos (tps p) ++ eTpos (tpe p) ++ [tst p].
+Definition eTloc (t : tloc) : list Z :=
+  match t with
+  | TSingle p => 0 :: eTpart p
+  | TCompound op ps => 1 :: eStr op ++ eList eTpart ps
+  end.
+End Text.
+
+(* ====================================================================================
    Decidable set-of-bases specifications.  They are evaluated on the IMPLEMENTATION's output
    (function id + 100, payload = input ++ implementation output) and are independent of how the
    code computes its answer: membership of a base in a location (in_loc) is the only primitive.
@@ -227,7 +390,53 @@ Definition ok_asym (x y : bool) : bool := negb (x && y).
 
 Definition dWrap : dec (option Z) := dOpt dZ.
 
-Definition run_C04 (fn : Z) (l : list Z) : list Z :=
+(* ---------- location_bridges_origin(location, allow_reversing=True) ----------
+   the answer and the state of the ARGUMENT afterwards: a reverse-strand location whose exons are in
+   the alternate order is reversed in place and stays reversed when that order is a valid one *)
+Definition bridges_reversing (l : loc) : bool * loc :=
+  if is_compound l then
+    let st := lstrand l in
+    if (st =? 1) || (st =? -1) then
+      if check_order st l then
+        if (st =? -1) && negb (check_order st (rev l)) then (false, rev l) else (true, l)
+      else (false, l)
+    else (negb (sorted_le (map ps l)), l)
+  else (false, l).
+
+(* ---------- build_location_from_others ---------- *)
+(* CompoundLocation(parts) raises ValueError with fewer than two parts *)
+Definition mkCompound (parts : list part) : res loc :=
+  if is_compound parts then Ok parts else Err E_Value.
+Definition build_step (acc : res loc) (l : loc) : res loc :=
+  do location <- acc;
+  if lstart l =? lend location then
+    match last_opt location, l with
+    | Some lastp, firstp :: rest =>
+      do new_sub <- mkFL (ps lastp) (pe firstp) (lstrand location);
+      if is_compound location || is_compound l
+      then mkCompound (removelast location ++ [new_sub] ++ rest)
+      else Ok [new_sub]
+    | _, _ => Err E_Index
+    end
+  else mkCompound (location ++ l).
+Definition build_location_from_others (locs : list loc) : res loc :=
+  match locs with
+  | [] => Err E_Value
+  | l :: r => fold_left build_step r (Ok l)
+  end.
+
+(* wrap point used by the Record helpers: len(record) when circular (and wrapping not disabled) *)
+Definition record_wrap (n : Z) (circ : bool) : option Z := if circ then Some n else None.
+
+(* specification 116: the implementation's results for several orders of the same argument list
+   (each result as a length-prefixed list) are all the same *)
+Fixpoint all_same (l : list (list Z)) : bool :=
+  match l with
+  | a :: ((b :: _) as t) => list_eqb Z.eqb a b && all_same t
+  | _ => true
+  end.
+
+Definition run_call (fn : Z) (l : list Z) : list Z :=
   match fn with
   | 1 => match dPair dLoc dLoc l with Some ((a, b), []) => eBool (overlap a b) | _ => bad_input end
   | 2 => match dPair dLoc dLoc l with Some ((a, b), []) => eBool (contains a b) | _ => bad_input end
@@ -251,6 +460,23 @@ Definition run_C04 (fn : Z) (l : list Z) : list Z :=
           | Some ((a, b, src), []) => eResBool (feature_lt src a b) | _ => bad_input end
   | 13 => match dPair dLoc dLoc l with
           | Some ((a, b), []) => eResBool (collection_lt a b) | _ => bad_input end
+  | 14 => match Text.dStr l with
+          | Some (s, []) => eRes Text.eTloc (Text.loc_from_string s) | _ => bad_input end
+  | 15 => match Text.dTloc l with
+          | Some (t, []) => Text.eStr (Text.loc_str t) | _ => bad_input end
+  | 16 => match dList dLoc l with
+          | Some (locs, []) => eRes eLoc (build_location_from_others locs) | _ => bad_input end
+  (* Record.connect_locations(locations, disable_wrapping=...) on a record of length n *)
+  | 17 => match dPair (dList dLoc) (dPair dZ (dPair dBool dBool)) l with
+          | Some ((locs, (n, (circ, off))), []) =>
+            eRes eLoc (connect_locations locs (record_wrap n (circ && negb off)))
+          | _ => bad_input end
+  (* Record.get_distance_between_locations on a record of length n *)
+  | 18 => match dPair (dPair dLoc dLoc) (dPair dZ dBool) l with
+          | Some ((a, b, (n, circ)), []) => [dist a b (record_wrap n circ)] | _ => bad_input end
+  | 19 => match dLoc l with
+          | Some (a, []) => let '(b, a') := bridges_reversing a in eBool b ++ eLoc a'
+          | _ => bad_input end
   (* ---- specifications evaluated on the implementation's output ---- *)
   | 101 => match dPair dLoc dLoc l with
            | Some ((a, b), [o]) => verdict_b true (ok_overlap a b (negb (o =? 0)))
@@ -287,8 +513,129 @@ Definition run_C04 (fn : Z) (l : list Z) : list Z :=
            | Some ((a, b), [0; x; 0; y]) => verdict_b true (ok_asym (negb (x =? 0)) (negb (y =? 0)))
            | Some ((a, b), _) => [2]
            | _ => bad_input end
+  (* payload = locs ++ wrap ++ the implementation's results for several argument orders *)
+  | 116 => match dPair (dList dLoc) dWrap l with
+           | Some ((locs, w), o) =>
+             match dList (dList dZ) o with
+             | Some (outs, []) => verdict (nonempty locs) (if all_same outs then 0 else 7)
+             | _ => bad_input end
+           | _ => bad_input end
   | 208 => match dPair (dPair dLoc dZ) (dPair dZ dBool) l with
            | Some ((a, d, (m, c)), _) => [extend_class a d m c]
            | _ => bad_input end
   | _ => bad_input
+  end.
+
+(* ====================================================================================
+   Histories.  The Python objects are mutable and the functions above are called again and again
+   in one process; the property speaks about every call, whatever happened before.  A history is
+   a list of operations on a heap of location objects:
+     HCall fn payload   - the call `fn` on arguments freshly built from `payload`; the argument
+                          locations and the returned location(s) become new heap objects;
+     HMut kind addr x   - one of the in-place mutators of the code base applied to the object at
+                          `addr`: 1 parts.reverse(); 2 location.strand = x (every part);
+                          3 parts.sort(key=start); 4 location_bridges_origin(.., allow_reversing=True);
+                          5 parts[0].strand = x; 6 the object is passed as an argument to function x
+                          (which must leave it as it is).  Output: the object afterwards.
+   run_history threads the heap through the operations and returns every operation's output.
+   ==================================================================================== *)
+Inductive hop := HCall (fn : Z) (payload : list Z) | HMut (kind addr x : Z).
+
+Definition locs_of_res (r : res loc) : list loc := match r with Ok x => [x] | Err _ => [] end.
+
+(* the location objects of a call: arguments in order, then the result *)
+Definition call_objects (fn : Z) (l : list Z) : list loc :=
+  match fn with
+  | 1 | 2 | 3 | 12 | 13 | 18 =>
+    match dPair dLoc dLoc l with Some ((a, b), _) => [a; b] | None => [] end
+  | 4 | 5 => match dLoc l with Some (a, _) => [a] | None => [] end
+  | 6 => match dPair (dList dLoc) dWrap l with
+         | Some ((locs, w), _) => locs ++ locs_of_res (connect_locations locs w) | None => [] end
+  | 7 => match dPair (dPair dLoc dZ) dWrap l with
+         | Some ((a, off, w), _) => a :: locs_of_res (offset_location a off w) | None => [] end
+  | 8 => match dPair (dPair dLoc dZ) (dPair dZ dBool) l with
+         | Some ((a, d, (m, c)), _) => a :: locs_of_res (extend_location a d m c) | None => [] end
+  | 9 => match dLoc l with Some (a, _) => [a; make_forwards a] | None => [] end
+  | 10 => match dLoc l with Some (a, _) => [a; remove_redundant_exons a] | None => [] end
+  | 11 => match dPair (dPair dLoc dZ) dBool l with
+          | Some ((a, s, u), _) => a :: locs_of_res (frameshift a s u) | None => [] end
+  | 14 => match Text.dStr l with
+          | Some (s, _) => match Text.loc_from_string s with
+                           | Ok t => [Text.loc_of_tloc t] | Err _ => [] end
+          | None => [] end
+  | 15 => match Text.dTloc l with Some (t, _) => [Text.loc_of_tloc t] | None => [] end
+  | 16 => match dList dLoc l with
+          | Some (locs, _) => locs ++ locs_of_res (build_location_from_others locs) | None => [] end
+  | 17 => match dPair (dList dLoc) (dPair dZ (dPair dBool dBool)) l with
+          | Some ((locs, (n, (circ, off))), _) =>
+            locs ++ locs_of_res (connect_locations locs (record_wrap n (circ && negb off)))
+          | None => [] end
+  | 19 => match dLoc l with Some (a, _) => [snd (bridges_reversing a)] | None => [] end
+  | _ => []
+  end.
+
+Definition set_strand (x : Z) (l : loc) : loc := map (fun p => mkPart (ps p) (pe p) x) l.
+Definition set_strand_first (x : Z) (l : loc) : loc :=
+  match l with p :: r => mkPart (ps p) (pe p) x :: r | [] => [] end.
+Definition start_lt (a b : part) : bool := ps a <? ps b.
+
+Definition mutate (kind x : Z) (l : loc) : loc * list Z :=
+  match kind with
+  | 1 => (rev l, eLoc (rev l))
+  | 2 => (set_strand x l, eLoc (set_strand x l))
+  | 3 => (sort_by start_lt l, eLoc (sort_by start_lt l))
+  | 4 => let '(b, l') := bridges_reversing l in (l', eBool b ++ eLoc l')
+  | 5 => (set_strand_first x l, eLoc (set_strand_first x l))
+  | 6 => (l, eLoc l)
+  | _ => (l, bad_input)
+  end.
+
+Fixpoint set_nth {A} (n : nat) (x : A) (l : list A) : list A :=
+  match l, n with
+  | [], _ => []
+  | _ :: r, O => x :: r
+  | y :: r, S m => y :: set_nth m x r
+  end.
+
+Definition no_object : list Z := [-998].
+
+Definition hstep (h : list loc) (o : hop) : list loc * list Z :=
+  match o with
+  | HCall fn p => (h ++ call_objects fn p, run_call fn p)
+  | HMut k a x =>
+    if a <? 0 then (h, no_object) else
+    match nth_error h (Z.to_nat a) with
+    | Some l => let '(l', out) := mutate k x l in (set_nth (Z.to_nat a) l' h, out)
+    | None => (h, no_object)
+    end
+  end.
+
+Fixpoint run_history (h : list loc) (ops : list hop) : list (list Z) :=
+  match ops with
+  | [] => []
+  | o :: r => let '(h', out) := hstep h o in out :: run_history h' r
+  end.
+
+Definition dHop : dec hop := fun l =>
+  match l with
+  | 0 :: fn :: r => match dList dZ r with Some (p, r') => Some (HCall fn p, r') | None => None end
+  | 1 :: k :: a :: x :: r => Some (HMut k a x, r)
+  | _ => None
+  end.
+(* the flat encoding of an operation (what the harness writes) *)
+Definition eHop (o : hop) : list Z :=
+  match o with
+  | HCall fn p => 0 :: fn :: zlen p :: p
+  | HMut k a x => [1; k; a; x]
+  end.
+
+Definition eOuts (outs : list (list Z)) : list Z := eList (fun o => zlen o :: o) outs.
+
+(* function 300: a whole history; every other id: one call *)
+Definition run_C04 (fn : Z) (l : list Z) : list Z :=
+  match fn with
+  | 300 => match dList dHop l with
+           | Some (ops, []) => eOuts (run_history [] ops)
+           | _ => bad_input end
+  | _ => run_call fn l
   end.
